@@ -24,6 +24,11 @@ package system
 //@ loop-complete 1
 //@ loop-complete 3
 //@ site loop 1 backedge assert itercalls("cqe_callback") == 1
+// a background job that was started is remembered (its promise and start time), so that it is not started
+// again while it is still running (C08: a single instance of each background job at a time)
+//@ site loop 2 backedge assert [C08 C12] itercalls("sched_add") == 1 && iterres("sched_add", 1) ==> bg.promise == iterres("sched_add", 0)
+//@ site loop 2 backedge assert [C08 C12] itercalls("sched_add") == 1 ==> bg.last == t
+//@ site loop 2 backedge assert [C08 C12] itercalls("sched_add") <= 1
 //@ site loop 3 backedge assert itercalls("make_coroutine") == 1 && itercalls("sched_add") == 1
 //@ site loop 3 backedge assert iterres("sched_add", 1) ==> itercalls("sqe_callback") == 0
 //@ site loop 3 backedge assert !iterres("sched_add", 1) ==> itercalls("sqe_callback") == 1
@@ -51,6 +56,9 @@ package system
 //@ requires s.config.SubmissionBatchSize > 0 && s.config.CompletionBatchSize > 0 && s.shutdown != nil && !closed(s.shutdown) && s.shortCircuit != nil
 //@ loop 1 invariant !closed(s.shutdown) && s.config != nil && s.aio != nil && s.api != nil && s.scheduler != nil && s.onRequest != nil && s.metrics != nil && s.metrics.CoroutinesTotal != nil && s.metrics.CoroutinesInFlight != nil && s.config.SubmissionBatchSize > 0 && s.config.CompletionBatchSize > 0 && s.shortCircuit != nil
 //@ site return assert itercalls("tick") == 1
+// every tick runs on a clock reading taken in the same iteration (C04: the kernel's notion of now is the wall
+// clock at the time of the tick, not a reading kept from an earlier wake-up)
+//@ site call Tick assert [C04 C12 C07 C09] itercalls("time_now") == 1 && t == unixmilli(iterres("time_now", 0))
 
 // The kernel is done only when the api reports done (shutdown requested, nothing queued) AND no coroutine is
 // still running (C12: requests already accepted are completed and answered before the server stops).
